@@ -71,6 +71,7 @@ package tar
 //@   modifies world(), elems(p)
 //@   ensures "full" n == old(ret("io.ReadFull", 0, f.Reader, p)) && 0 <= n && n <= len(p)
 //@   ensures "eof" iff(err == io.EOF, old(ret("io.ReadFull", 1, f.Reader, p)) == io.EOF || old(ret("io.ReadFull", 1, f.Reader, p)) == io.ErrUnexpectedEOF)
+//@   ensures "other" implies(err != io.EOF, err == old(ret("io.ReadFull", 1, f.Reader, p)))
 //@   nopanic
 
 // ---- Open ----
@@ -79,4 +80,84 @@ package tar
 //@   requires fs != nil && fs.unarchiveFS != nil && fs.ps != nil
 //@   modifies world()
 //@   ensures "gate" [C04 C05] implies(!VP(name), f == nil && isPathError(err) && pathOf(err) == name && errIs(err, hackpadfs.ErrInvalid) && world() == old(world()))
+//@   nopanic
+
+// ---- directory entries: the function literal that readProcessFile starts for a directory entry ----
+// (function literals are named as go/ssa names them; captured variables are referred to by name and mean their
+// values when the literal starts. Sends are counted in ghost state: gint("sent", ch).)
+//@ extern sync.(*WaitGroup).Done()
+//@   requires self != nil
+
+//@ spec dMkErr(fs *ReaderFS, p string, info hackpadfs.FileInfo) := ret("hackpadfs.(MkdirFS).Mkdir", 0, hackpadfs.MkdirFS(fs.unarchiveFS), p, wfMode(info))
+//@ spec dW1(fs *ReaderFS, p string, info hackpadfs.FileInfo) := worldAfter("hackpadfs.(MkdirFS).Mkdir", hackpadfs.MkdirFS(fs.unarchiveFS), p, wfMode(info))
+//@ spec dMode2(fs *ReaderFS, p string, info hackpadfs.FileInfo) := retW("hackpadfs.(FileInfo).Mode", 0, dW1(fs, p, info), info)
+//@ spec dChErr(fs *ReaderFS, p string, info hackpadfs.FileInfo) := retW("hackpadfs.(ChmodFS).Chmod", 0, dW1(fs, p, info), hackpadfs.ChmodFS(fs.unarchiveFS), p, dMode2(fs, p, info))
+//@ spec dW2(fs *ReaderFS, p string, info hackpadfs.FileInfo) := worldAfterW("hackpadfs.(ChmodFS).Chmod", dW1(fs, p, info), hackpadfs.ChmodFS(fs.unarchiveFS), p, dMode2(fs, p, info))
+//@ spec dExists(fs *ReaderFS, p string, info hackpadfs.FileInfo) := dMkErr(fs, p, info) != nil && errIs(dMkErr(fs, p, info), hackpadfs.ErrExist)
+
+//@ func (fs *ReaderFS) readProcessFile$1()
+//@   props C12 C14
+//@   requires fs != nil && fs.unarchiveFS != nil && info != nil && wg != nil && errs != nil
+//@   modifies world(), gint("sent", errs), gint("sentlast.tag", errs), gint("sentlast.val", errs)
+//@   ensures "created" [C12] implies(old(dMkErr(fs, p, info)) == nil, world() == old(dW1(fs, p, info)) && gint("sent", errs) == old(gint("sent", errs)))
+//@   ensures "existing-dir-gets-entry-mode" [C12] implies(old(dExists(fs, p, info)), world() == old(dW2(fs, p, info)))
+//@   ensures "mkdir-error-reported" [C12 C14] implies(old(dMkErr(fs, p, info)) != nil && !old(dExists(fs, p, info)), gint("sent", errs) == old(gint("sent", errs)) + 1 && gint("sentlast.tag", errs) != 0)
+//@   ensures "chmod-error-reported" [C12 C14] implies(old(dExists(fs, p, info)), ite(old(dChErr(fs, p, info)) != nil, gint("sent", errs) == old(gint("sent", errs)) + 1 && gint("sentlast.tag", errs) != 0, gint("sent", errs) == old(gint("sent", errs))))
+//@   nopanic
+
+// ---- regular entries small enough for one read: the function literal that writes them in the background ----
+//@ func (p *bufferPool) Wait() (b *buffer)
+//@   assumed
+//@   requires p != nil
+//@   ensures "buffer" b != nil && fresh(b) && fresh(b.Data)   // owned exclusively by the caller until Done: modelled as a new object
+//@ func (b *buffer) Done()
+//@   assumed
+//@   requires b != nil
+
+//@ func (fs *ReaderFS) readProcessFile$2()
+//@   props C12 C14
+//@   requires fs != nil && fs.unarchiveFS != nil && fs.ps != nil && info != nil && smallBuf != nil && 0 <= n && n <= len(smallBuf.Data) && wg != nil && errs != nil
+//@   modifies world(), gint("emitted", kid(p)), gint("sent", errs), gint("sentlast.tag", errs), gint("sentlast.val", errs)
+//@   ensures "write-error-reported" [C12 C14] ite(old(wfComplete(fs, p, info, nil)), gint("sent", errs) == old(gint("sent", errs)), gint("sent", errs) == old(gint("sent", errs)) + 1 && gint("sentlast.tag", errs) != 0)
+//@   ensures "announced-only-if-complete" [C12] implies(announced(p) && !old(announced(p)), old(wfComplete(fs, p, info, nil)))
+//@   nopanic
+
+// ---- the directory cache of readErr: a directory is remembered only after MkdirAll succeeded for it ----
+//@ func (fs *ReaderFS) readErr$1(path string, perm hackpadfs.FileMode) (err error)
+//@   props C12 C14
+//@   requires fs != nil && fs.unarchiveFS != nil && mkdirCache != nil
+//@   modifies world(), mapOf(mkdirCache)
+//@   ensures "hit" implies(old(in(path, dom(mkdirCache))), err == nil && world() == old(world()))
+//@   ensures "miss" [C12 C14] implies(!old(in(path, dom(mkdirCache))), err == old(ret("hackpadfs.MkdirAll", 0, hackpadfs.FS(fs.unarchiveFS), path, perm)) &&
+//@                     world() == old(worldAfter("hackpadfs.MkdirAll", hackpadfs.FS(fs.unarchiveFS), path, perm)) && iff(in(path, dom(mkdirCache)), err == nil))
+//@   ensures "others" forall(k, string, implies(k != path, in(k, dom(mkdirCache)) == old(in(k, dom(mkdirCache)))))
+//@   nopanic
+
+// ---- one archive entry ----
+//@ extern archive/tar.(*Header).FileInfo() (info hackpadfs.FileInfo)
+//@   deterministic
+//@   pure
+//@   requires self != nil
+//@   ensures "info" info != nil
+//@ extern sync.(*WaitGroup).Add(delta int)
+//@   requires self != nil
+
+//@ spec rp(s string) := ite(trimPrefix(pclean(s), "/") == "", ".", trimPrefix(pclean(s), "/"))
+//@ spec hInfo(h *tar.Header) := ret("archive/tar.(*Header).FileInfo", 0, h)
+//@ spec hIsDir(h *tar.Header) := ret("hackpadfs.(FileInfo).IsDir", 0, hInfo(h))
+//@ spec firstErr(r io.Reader) := ret("io.ReadFull", 1, r, nil)
+//@ spec prepErr(mk func(string, hackpadfs.FileMode) error, h *tar.Header) := apply(mk, pdir(rp(h.Name)), 0700)
+
+//@ func (fs *ReaderFS) readProcessFile(header *tar.Header, r io.Reader, wg *sync.WaitGroup, errs chan error, mkdirAll func(string, hackpadfs.FileMode) error, smallPool *bufferPool, bigPool *bufferPool) (err error)
+//@   props C12 C14
+//@   requires fs != nil && fs.unarchiveFS != nil && fs.ps != nil && fs.callerCtx != nil && header != nil && r != nil && wg != nil && errs != nil && mkdirAll != nil && smallPool != nil && bigPool != nil
+//@   modifies world(), gint("emitted", kid(rp(header.Name)))
+//@   ensures "cancelled" implies(old(cancelled(fs.callerCtx)), err != nil && world() == old(world()))
+//@   ensures "base-dir-error" [C12 C14] implies(!old(cancelled(fs.callerCtx)) && old(prepErr(mkdirAll, header)) != nil, err != nil && world() == old(world()))
+//@   ensures "directory" implies(!old(cancelled(fs.callerCtx)) && old(prepErr(mkdirAll, header)) == nil && old(hIsDir(header)), err == nil && world() == old(world()))
+//@   ensures "visible-only-if-written" [C12] implies(!old(announced(rp(header.Name))) && announced(rp(header.Name)), err == nil)
+//@   ensures "read-error" [C12 C14] implies(!old(cancelled(fs.callerCtx)) && old(prepErr(mkdirAll, header)) == nil && !old(hIsDir(header)) && old(firstErr(r)) != nil && old(firstErr(r)) != io.EOF && old(firstErr(r)) != io.ErrUnexpectedEOF,
+//@                     err == old(firstErr(r)))
+//@   ensures "large-file" [C12] implies(!old(cancelled(fs.callerCtx)) && old(prepErr(mkdirAll, header)) == nil && !old(hIsDir(header)) && old(firstErr(r)) == nil && !old(announced(rp(header.Name))),
+//@                     iff(err == nil, announced(rp(header.Name))))
 //@   nopanic
